@@ -158,3 +158,21 @@ def index_family(mode: str, version: int):
             body = ("Seq",) + pre + (("Return", ("Bin", "Add", ("LoadAt", ie), ("Int", 0))),)
             out.append(("opt:index:sub-load-%s" % nm, prog(mode, ("Return", ("Call", "f")), dict(V), {"f": {"params": [], "ret": "u", "body": body}}), {}))
     return out
+
+
+def shared_reader_family(mode: str, version: int):
+    """a variable stored and immediately loaded in one routine and read by two (or more) other routines: it is shared, so the
+    slot optimiser must leave it alone - also when the options object has been used for another program before"""
+    out = []
+    e = Env(mode, version)
+    rd = {"params": [], "ret": "u", "body": ("Bin", "Add", ("Load", "x"), ("Int", 1))}
+    rd2 = {"params": [("val", "n")], "ret": "u", "body": ("Bin", "Mul", ("Load", "x"), ("Param", "n"))}
+    for nm, main in (
+            ("assert-then-two-readers", ("Seq", ("Store", "x", e.u(1)), ("Assert", ("Bin", "Le", ("Load", "x"), ("Int", 1 << 40))),
+                                         ("Return", ("Bin", "Add", ("Call", "r1"), ("Call", "r2", ("Int", 3)))))),
+            ("pop-then-three-readers", ("Seq", ("Store", "x", e.u(1)), ("Un", "Pop", ("Load", "x")),
+                                        ("Return", ("Nary", "Add", ("Call", "r1"), ("Call", "r2", ("Int", 3)), ("Call", "r1"))))),
+            ("two-variables", ("Seq", ("Store", "x", e.u(1)), ("Store", "y", ("Load", "x")), ("Un", "Pop", ("Load", "y")),
+                               ("Return", ("Bin", "Add", ("Call", "r1"), ("Call", "r2", ("Load", "y"))))))):
+        out.append(("opt:shared:%s" % nm, prog(mode, main, {"x": {"t": "u"}, "y": {"t": "u"}}, {"r1": rd, "r2": rd2}), {}))
+    return out
